@@ -33,7 +33,7 @@ STUB_PIPE = ["nextflow: launches, chunk fan-out and file hand-over are driven by
              "process entropy (global numpy / random state, OS entropy, seedless default_rng) is served from the simulator's stream"]
 
 SPEC = {
-    "C04": dict(engine="twinsim", level="fault_enumeration", runs=dict(quick=320, thorough=8000), chunk=2, run_timeout=600,
+    "C04": dict(engine="twinsim", level="fault_enumeration", runs=dict(quick=320, thorough=3000), chunk=2, run_timeout=600,
                 rule="per run one twin pair: a full round (train x chains -> distance x chunks -> scores x chunks -> select) on a "
                      "partially observed screen, executed once on the clean file and once with every masked observation overwritten "
                      "by one of the poison kinds (finite junk / 0 / 1 / negative / NaN / inf / mixed); both shipped MCMC models, three "
@@ -43,7 +43,7 @@ SPEC = {
                 real=REAL_PIPE, stub=STUB_PIPE,
                 assumptions=["twins share seeds, entropy stream and schedule; they differ only in masked bytes of the screen file",
                              "<= 40 rows, <= 2 chains x <= 3 samples, D <= 2"]),
-    "C18": dict(engine="twinsim", level="exploration", runs=dict(quick=240, thorough=3000), chunk=2, run_timeout=600,
+    "C18": dict(engine="twinsim", level="exploration", runs=dict(quick=240, thorough=1500), chunk=2, run_timeout=600,
                 rule="per run 5 randomised operations (function level: generators, smoothers, cover, splits, RandomScorer, DBAL triple "
                      "sub-sampling, score_chunk, policy filter, select_next_plate, sampling.sample on both real models; process level: "
                      "prepare / train / scores / select / evaluate CLIs with --seed), each executed as a twin pair that differs only in "
@@ -848,7 +848,8 @@ def _run_op(op, scratch, seed_override=None):
         m = Mdl(experiment_space=es, n_embedding_dimensions=w.choice([2, 2, 1, 3]), **opts)
         m.add_observations(scr.subset_observed())
         h = ThetaHolder(n_thetas=2)
-        sampling.sample(model=m, results=h, seed=seed % (2**32), n_chains=2, chain_index=w.randrange(2), n_burnin=1, thin=1)
+        sampling.sample(model=m, results=h, seed=seed % (2**32), n_chains=2, chain_index=w.randrange(2),
+                        n_burnin=w.choice([1, 0, 0, 2]), thin=w.choice([1, 1, 2]))
         return digest([pipe.theta_digest(t) for t in h.thetas])
 
     # ---- process level
@@ -888,7 +889,8 @@ def _run_op(op, scratch, seed_override=None):
         scr.save_h5(src)
         out = scratch.file("thetas.h5")
         pipe.p_train(src, out, model=MODEL_NAME[model], model_params={"n_embedding_dimensions": 2}, n_chains=2,
-                     chain_index=w.randrange(2), n_samples=2, n_burnin=1, thin=1, seed=seed % 100000, entropy=None)
+                     chain_index=w.randrange(2), n_samples=2, n_burnin=w.choice([1, 0, 0, 2]), thin=w.choice([1, 1, 2]),
+                     seed=seed % 100000, entropy=None)
         return pipe.holder_file_digest(out)
     # the remaining process-level operations need thetas + distances on files
     spec = pipe.gen_pipeline_screen(w, n_plates=w.randint(3, 5), single_sample_plates=True, observed_plates=1)
